@@ -156,7 +156,8 @@ def write_replay(inputs, clause):
                     i = len(calls)
                     calls.append(path)
                     if i < len(pattern) and pattern[i] == 'EMFILE':
-                        raise OSError(24, 'Too many open files (injected)')
+                        # odd attempts fail with ENFILE, even ones with EMFILE: the retry must not depend on the errno
+                        raise OSError(23 if i % 2 == 0 else 24, 'Too many open files (injected)')
                 return opener(path, *a, **k)
             return f
         mod.gzip.open = failing(real_gzip_open)
@@ -329,3 +330,10 @@ return (a, b)
     raises={},
 )
 UNITS.append(fresh_state)
+
+
+def extra_units():
+    """one file per cell: FastqHandle.write routes every record to the file of its own cell (C01's units, re-verified here)"""
+    from contracts import c01
+    from pyvc.units import share
+    return [share(u, PROP) for u in c01.UNITS if getattr(u, 'name', '').startswith('FastqHandle.write[one file per cell')]
